@@ -131,7 +131,13 @@ Definition outs_of (P : params) (s : state) : list out :=
   let '(m, H, ctx) := s in flat_map (walk_act P m ctx H) (body_of P m).
 
 (* ---- equality tests *)
-Definition pair_eqb (a b : N * N) : bool := N.eqb (fst a) (fst b) && N.eqb (snd a) (snd b).
+(* written with [if] rather than && / ||: vm_compute evaluates function arguments strictly *)
+Definition pair_eqb (a b : N * N) : bool := if N.eqb (fst a) (fst b) then N.eqb (snd a) (snd b) else false.
+Fixpoint mem_pair (x : N * N) (l : list (N * N)) : bool :=
+  match l with
+  | [] => false
+  | y :: r => if pair_eqb x y then true else mem_pair x r
+  end.
 Definition ctx_eqb (a b : option (N * N)) : bool :=
   match a, b with
   | None, None => true
@@ -146,7 +152,7 @@ Definition why_eqb (a b : why) : bool :=
   end.
 Definition site_eqb (a b : site) : bool :=
   let '(c1, y1, m1) := a in let '(c2, y2, m2) := b in
-  ctx_eqb c1 c2 && why_eqb y1 y2 && N.eqb m1 m2.
+  if ctx_eqb c1 c2 then (if why_eqb y1 y2 then N.eqb m1 m2 else false) else false.
 Definition mem_site (t : site) (K : list site) : bool := existsb (site_eqb t) K.
 
 (* ---- a set of abstract states, indexed by context: list of (ctx, list of (method, held)) *)
@@ -159,7 +165,7 @@ Fixpoint idx_mem (s : state) (Ix : index) : bool :=
   match Ix with
   | [] => false
   | (c, l) :: r =>
-      (ctx_eqb c (snd s) && existsb (pair_eqb (fst s)) l) || idx_mem s r
+      if ctx_eqb c (snd s) then (if mem_pair (fst s) l then true else idx_mem s r) else idx_mem s r
   end.
 
 Fixpoint idx_add (s : state) (Ix : index) : index :=
@@ -238,7 +244,7 @@ Fixpoint cb_sites_act (P : params) (H : N) (a : act) {struct a} : list (N * N) :
 Fixpoint nodup_pairs (l : list (N * N)) : list (N * N) :=
   match l with
   | [] => []
-  | x :: r => if existsb (pair_eqb x) r then nodup_pairs r else x :: nodup_pairs r
+  | x :: r => if mem_pair x r then nodup_pairs r else x :: nodup_pairs r
   end.
 
 Definition cb_contexts (P : params) (fuel : nat) : list (N * N) :=
@@ -317,7 +323,7 @@ Definition outs_pos (P : params) (s : state) : list (list nat * out) :=
   let '(m, H, ctx) := s in walk_body_pos P m ctx H O (body_of P m).
 
 Definition state_eqb (a b : state) : bool :=
-  pair_eqb (fst a) (fst b) && ctx_eqb (snd a) (snd b).
+  if pair_eqb (fst a) (fst b) then ctx_eqb (snd a) (snd b) else false.
 
 (* parent table: child state -> (parent state, position of the Call / UserCb in the parent's body) *)
 Definition parents : Type := list (state * (state * list nat)).
